@@ -97,13 +97,13 @@ var redefItems = []*item{
 		`(defparameter *rp* 2.5 "Doc of rp two.")`},
 		[]string{`*rp*`, `(documentation '*rp* 'variable)`}},
 	{"redef-generic", []string{
-		`(defgeneric rg1 (a b))`,
-		`(defmethod rg1 ((a fixnum) (b t)) (list 'fixnum-one a b))`,
-		`(defmethod rg1 ((a string) (b t)) (list 'string a b))`,
-		`(defmethod rg1 ((a double-float) (b t)) (list 'double a b))`,
-		`(defmethod rg1 ((a fixnum) (b t)) (list 'fixnum-two b a))`,
-		`(remove-method (function rg1) (find-method (function rg1) nil (list (find-class 'string) (find-class 't))))`},
-		[]string{`(rg1 1 2)`, `(rg1 "s" 2)`, `(rg1 1.5 2)`}},
+		`(defgeneric rg1 (a))`,
+		`(defmethod rg1 ((a fixnum)) (list 'fixnum-one a))`,
+		`(defmethod rg1 ((a string)) (list 'string a))`,
+		`(defmethod rg1 ((a double-float)) (list 'double a))`,
+		`(defmethod rg1 ((a fixnum)) (list 'fixnum-two a a))`,
+		`(remove-method (function rg1) (find-method (function rg1) nil '(string)))`},
+		[]string{`(rg1 1)`, `(rg1 "s")`, `(rg1 1.5)`}},
 	{"redef-defclass", []string{
 		`(defclass rc1 () ((a :initform 1 :initarg :a)))`,
 		`(defclass rc1 () ((a :initform 10 :initarg :a) (b :initform "bee" :initarg :b)))`},
@@ -173,9 +173,8 @@ func snapMaxSize(tier string) int {
 	return 2
 }
 
-func enumerateSnap(tier string, emit func(string)) {
-	max := snapMaxSize(tier)
-	n := len(items)
+func subsets(pool []*item, max int, emit func(ids []string)) {
+	n := len(pool)
 	for size := 0; size <= max; size++ {
 		idx := make([]int, size)
 		var rec func(pos, start int)
@@ -183,9 +182,9 @@ func enumerateSnap(tier string, emit func(string)) {
 			if pos == size {
 				ids := make([]string, size)
 				for i, k := range idx {
-					ids[i] = items[k].id
+					ids[i] = pool[k].id
 				}
-				emit("snap|" + strings.Join(ids, ","))
+				emit(ids)
 				return
 			}
 			for k := start; k < n; k++ {
@@ -195,9 +194,40 @@ func enumerateSnap(tier string, emit func(string)) {
 		}
 		rec(0, 0)
 	}
-	emit("snap|" + strings.Join(menu, ","))
-	emit("snap|" + forwardRef.id)
-	emit("snap|" + flavorForest.id)
+}
+
+// redefMaxSize: the largest subset of the combined menu (basic + redefinition
+// items) enumerated; quick has the redefinition items alone only.
+func redefMaxSize(tier string) int {
+	if tier == engine.Thorough {
+		return 3
+	}
+	return 1
+}
+
+func enumerateSnap(tier string, emit func(string)) {
+	seen := map[string]bool{}
+	out := func(ids []string) {
+		spec := "snap|" + strings.Join(ids, ",")
+		if !seen[spec] {
+			seen[spec] = true
+			emit(spec)
+		}
+	}
+	// the basic menu
+	subsets(items, snapMaxSize(tier), out)
+	// the combined menu: redefinition items alone (quick) / in every subset of size <= 3 (thorough)
+	all := append(append([]*item(nil), items...), redefItems...)
+	if tier == engine.Thorough {
+		subsets(all, redefMaxSize(tier), out)
+	} else {
+		subsets(redefItems, redefMaxSize(tier), out)
+	}
+	out(menu)
+	out(redefMenu)
+	out(append(append([]string(nil), menu...), redefMenu...))
+	out([]string{forwardRef.id})
+	out([]string{flavorForest.id})
 }
 
 // ------------------------------------------------------------------ stages
